@@ -257,11 +257,18 @@ OPS = dict(gen=op_gen, npseed=op_npseed, like=op_like, fit=op_fit, load_subs=op_
            slices=op_slices, simp_inv=op_simp_inv, subs_templates=op_subs_templates, snapshot=op_snapshot, victim=op_victim, barrier=op_barrier, check_results=op_check_results)
 
 
-def run_program(program, rank, size, scratch, report, comm, fs_state=None):
+def run_program(program, rank, size, scratch, report, comm, fs_state=None, op_plans=None):
     ctx = types.SimpleNamespace(rank=rank, size=size, scratch=scratch, report=report, comm=comm,
                                 per_rank_seed=True, fs_state=fs_state if fs_state is not None else {'on': False})
     report['ops_done'] = 0
-    for op in program:
+    for oi, op in enumerate(program):
         name, kw = op[0], (op[1] if len(op) > 1 else {})
+        if op_plans is not None:
+            # fault plans scoped to one operation of the program: block ordinals count from the start of that operation
+            from . import ticker
+            pl = (op_plans.get(str(oi)) or op_plans.get(oi) or {})
+            pl = pl.get(str(rank), pl.get(rank, {})) or {}
+            ticker.CLOCK.plan = {(k if k == '*' else int(k)): tuple(v) for k, v in pl.items()}
+            ticker.CLOCK.blocks = 0
         OPS[name](ctx, **kw)
         report['ops_done'] += 1
